@@ -67,7 +67,9 @@ DICT_VALUES = ["{'a': 1, 'b': 2}", "{'a': {...: 1}}", "{'q': {...: ...}}", "{'a'
                "{'a': {'x': 1, 'y': 'q'}, 'b': 2}", "{'a': {}}", "{'a': {'x': 1, 'q': 0}}", "{'a': {'x': 'bad'}}", "{'a': [1, 2], 'b': ['s']}",
                "{'a': [1, 'x']}", "{'a': 1, 'b': 1.04}", "{'a': 1, 'b': 1.0}", "{1: 5, None: 's'}", "{1: 5}", "{'a': object()}",
                "{'q': object()}", "{'a': {'x': object()}}", "{'c': None}", "{'a': 1, ...: ...}", "{'a': ...}", "{...: ...}",
-               "{'a': {'x': ...}}", "{'a': {'x': 1, 2: 2}}", "[('a', 1)]", "{'a': 5}", "{'a': {'x': 1}, 'zz': {'deep': [1]}}"]
+               "{'a': {'x': ...}}", "{'a': {'x': 1, 2: 2}}", "[('a', 1)]", "{'a': 5}", "{'a': {'x': 1}, 'zz': {'deep': [1]}}",
+               # keys whose printed form is unusual (error messages print them): tuples, braces, percent signs
+               "{'a': 1, (1, 2): 'x'}", "{'a': 1, (): 0}", "{'a': 1, '{k}': 0, '%s': 1}", "{'a': 1, 'zz': 0, 7: 3}"]
 
 
 def ev(src: str):
